@@ -18,6 +18,7 @@ float literals inside strings."""
 import copy
 import glob
 import json
+import zlib
 import os
 import re
 import shutil
@@ -428,9 +429,40 @@ class Impl(object):
                 raise errs[0]
         return concrete
 
+    def qmode(self, case):
+        """how the question is put (the answer must not depend on it): 0 = object whose active platform is the
+        requested one; 1 = object with ANOTHER active platform, the platform passed explicitly; 2 = a primitive
+        resolution (what validate() does) of the same component on the same object first"""
+        h = zlib.crc32(json.dumps([case['doc'], case['platform'], case['stage'], case['name']], sort_keys=True,
+                                  default=str).encode()) % 4
+        if h == 2 and not case['files']:
+            return 1
+        if h == 3:
+            return 2
+        return 0
+
     def outcome(self, case, raw):
         try:
+            mode = self.qmode(case)
+            if mode == 1:
+                plats = sorted(set(['default'] + [k for k in (case['doc'].get('variables') or {}) if isinstance(k, str)]
+                                   + [k for k in (case['doc'].get('blueprint') or {}) if isinstance(k, str)]))
+                others = [q for q in plats if q != case['platform']]
+                if not others:
+                    mode = 0
+            if mode == 1:
+                concrete = self.F.FlowIRConcrete(copy.deepcopy(case['doc']), others[len(others) // 2], {})
+                r = concrete.get_component_configuration((case['stage'], case['name']), raw=raw, include_default=True,
+                                                         platform=case['platform'])
+                r.pop('override', None)
+                return ('ok', r)
             concrete = self.concrete(case)
+            if mode == 2:
+                try:
+                    concrete.get_component_configuration((case['stage'], case['name']), raw=False, include_default=True,
+                                                         is_primitive=True)
+                except Exception:
+                    pass
             r = concrete.get_component_configuration((case['stage'], case['name']), raw=raw, include_default=True)
             r.pop('override', None)
             return ('ok', r)
@@ -639,6 +671,7 @@ def _explore(ctx, cases, metamorphic=True):
         dflt = impl.dflt()
         builtin = impl.builtin()
         for case in cases:
+            ctx.count('question_%s' % ('active_platform', 'explicit_platform_on_other_object', 'after_primitive_resolution')[impl.qmode(case)])
             oraw = impl.outcome(case, True)
             ores = impl.outcome(case, False)
             o_str = impl.outcome(strip_foreign(case), False) if metamorphic else None
